@@ -48,6 +48,8 @@ TEXTS = {
     "B": "===B===\nMETA:\n  TYPE::T\nK::b\nL::[1,2]\n===END===\n",
     "C": "===C===\nMETA:\n    TYPE :: T\nK::c -> d  \n",  # non-canonical spelling
     "X": "===X===\nK::[1,2\n===END===\n",  # unparseable
+    "S": "===S===\nK::\"lone \ud800 surrogate\"\n===END===\n",  # readable, but its canonical text cannot be encoded as UTF-8: fails while staging
+    "Z": "===Z===\nK::\n```\nline one\r\nline two\rend\n```\n===END===\n",  # CR bytes survive inside a literal zone
 }
 EXT = {"E1": TEXTS["A"].replace("K::a", "K::external").encode(), "E2": b"===E2===\nZ::1\n===END===\n", "EMPTY": b"", "BIN": b"\xff\xfe\x00binary\x80", "DEL": None}
 STALE = hashlib.sha256(b"something that was never in the file").hexdigest()
@@ -110,10 +112,12 @@ def run_history(case, root):
             kw["corrections_only"] = True
         try:
             if op.startswith("cli"):
-                args = ["write", path] + (["--stdin"] if op == "cli_write" else ["--changes", json.dumps({"K": "changed" + str(k), "NEW" + str(k): [k]})])
+                as_arg = op == "cli_write" and step["content"] in ("S", "Z")  # (stdin is a text stream: it cannot carry a lone surrogate and translates CR)
+                args = ["write", path] + ((["--content", TEXTS[step["content"]]] if as_arg else ["--stdin"]) if op == "cli_write"
+                                          else ["--changes", json.dumps({"K": "changed" + str(k), "NEW" + str(k): [k]})])
                 if bh:
                     args += ["--base-hash", bh]
-                code, out_, err_, exc = tools.cli(args, input=TEXTS[step["content"]] if op == "cli_write" else None)
+                code, out_, err_, exc = tools.cli(args, input=TEXTS[step["content"]] if (op == "cli_write" and not as_arg) else None)
                 if exc is not None:
                     raise exc
                 hm = [ln.split(": ", 1)[1].strip() for ln in out_.splitlines() if ln.startswith("canonical_hash: ")]
@@ -203,14 +207,14 @@ def history_strategy():
 
     bh = hs.sampled_from(["none", "current", "current", "stale", "new"])
     step = hs.one_of(
-        hs.builds(lambda c, b: {"op": "write", "content": c, "bh": b}, hs.sampled_from(["A", "B", "C", "X"]), bh),
+        hs.builds(lambda c, b: {"op": "write", "content": c, "bh": b}, hs.sampled_from(["A", "B", "C", "X", "S", "Z"]), bh),
         hs.builds(lambda b: {"op": "changes", "bh": b}, bh),
         hs.builds(lambda b: {"op": "normalize", "bh": b}, bh),
         hs.builds(lambda c, b: {"op": "dry_write", "content": c, "bh": b}, hs.sampled_from(["A", "C", "X"]), bh),
         hs.builds(lambda b: {"op": "dry_changes", "bh": b}, bh),
         hs.builds(lambda w: {"op": "ext", "what": w}, hs.sampled_from(sorted(EXT))),
         hs.builds(lambda w: {"op": "ext", "what": w}, hs.sampled_from(sorted(EXT))),
-        hs.builds(lambda c, b: {"op": "cli_write", "content": c, "bh": b}, hs.sampled_from(["A", "B", "X"]), bh),
+        hs.builds(lambda c, b: {"op": "cli_write", "content": c, "bh": b}, hs.sampled_from(["A", "B", "X", "S", "Z"]), bh),
         hs.builds(lambda b: {"op": "cli_changes", "bh": b}, bh),
     )
     return hs.builds(lambda s, pm: {"kind": "history", "steps": s, "parent_missing": pm}, hs.lists(step, min_size=1, max_size=5), hs.booleans())
